@@ -638,7 +638,10 @@ func init() {
 			qs.Add(q, 1)
 		}
 		for _, q := range []string{"2", "-1.5", "NaN", "Inf", "time()", "pi()", "time() * 2", "-time()", "2 + 3", `scalar(b{l="0"})`, `scalar(b{l="0"}) + time()`,
-			`scalar(a)`, `scalar(a{l="0"})`, `vector(scalar(a{l="0"}))`, `vector(time())`, `-vector(2)`, `scalar(b{l="0"}) > bool 2`, `time() > bool 600`,
+			`scalar(a)`, `scalar(a{l="0"})`, `vector(scalar(a{l="0"}))`,
+			// scalar() of something that has no series at all is NaN at every step
+			`scalar(nope)`, `vector(scalar(nope))`, `scalar(a{l="9"})`, `vector(scalar(nope @ 60.000))`, `scalar(nope) + 1`, `a + scalar(nope)`, `vector(scalar(sum(nope)))`,
+			`clamp_min(a, scalar(nope))`, `scalar(nope offset 30s) > bool 1`, `-scalar(nope)`, `vector(time())`, `-vector(2)`, `scalar(b{l="0"}) > bool 2`, `time() > bool 600`,
 			`a @ 60.000 + a`, `sum(a @ 60.000) + a`, `a + scalar(a{l="0"} @ 60.000)`, `abs(a @ 60.000)`, `a @ 90.000 offset 30s`, `rate(a[1m] @ 120.000)`,
 			`histogram_quantile(0.5, h_bucket)`, `histogram_quantile(0.9, h_bucket{l="0"})`, `histogram_quantile(scalar(b{l="0"}) / 5, h_bucket)`,
 			`histogram_quantile(-1, h_bucket)`, `histogram_quantile(2, h_bucket)`, `histogram_quantile(NaN, h_bucket)`, `histogram_quantile(0.5, rate(h_bucket[1m]))`,
